@@ -150,6 +150,9 @@ counters!(
     monotonic_clock_reads_by_loader,
     pause_ops,
     paused_simulated_seconds,
+    runs_hoarding,
+    hoarded_providers_rejudged,
+    max_providers_alive_in_one_run,
     loads_refused_drained_source,
     runs_link_chain,
     chdir_ops,
@@ -225,7 +228,7 @@ impl Counters {
                     self.v[i] = *x;
                     self.v[C::budget_of_that_load as usize] = o.v[C::budget_of_that_load as usize];
                 }
-            } else if i == C::max_loads_in_one_run as usize || i == C::max_ops_in_one_run as usize {
+            } else if i == C::max_loads_in_one_run as usize || i == C::max_ops_in_one_run as usize || i == C::max_providers_alive_in_one_run as usize {
                 if *x > self.v[i] {
                     self.v[i] = *x;
                 }
@@ -1209,6 +1212,14 @@ impl Sim {
             path = PathBuf::from(name);
         }
         let mut clients: Vec<Option<Held>> = (0..sc.n_clients.max(1)).map(|_| None).collect();
+        // Every other run HOARDS: a provider that a client replaces or loses is not dropped but
+        // kept alive until the end of the run (a service with a provider per tenant keeps
+        // hundreds), and all of them are compared with their files once more at the end. The
+        // other runs drop providers as they go (what a dropped provider leaves behind matters
+        // too: seeded change M213).
+        let hoarding = sc.seed & 1 == 1;
+        let mut hoard: Vec<Held> = Vec::new();
+        const HOARD_MAX: usize = 2048;
         let mut sig = Fnv::default();
         sig.bytes(ctx.images[sc.initial].class.as_bytes());
         let mut any_fault_or_race = false;
@@ -1297,8 +1308,11 @@ impl Sim {
                     let c = *client % clients.len();
                     let mut w = self.world.borrow_mut();
                     w.ctr.inc(C::restart_ops);
-                    if clients[c].take().is_some() {
+                    if let Some(old) = clients[c].take() {
                         w.ctr.inc(C::restart_dropped_provider);
+                        if hoarding && hoard.len() < HOARD_MAX {
+                            hoard.push(old);
+                        }
                     }
                     if self.trace {
                         trace.push(format!("op{oi} Restart client {c}"));
@@ -1706,10 +1720,13 @@ impl Sim {
                                         if is_tail {
                                             w.ctr.inc(C::tail_loads_ok);
                                         }
-                                        clients[c] = Some(Held {
+                                        let old = clients[c].replace(Held {
                                             provider: p,
                                             image: img,
                                         });
+                                        if let (true, Some(old)) = (hoarding && hoard.len() < HOARD_MAX, old) {
+                                            hoard.push(old);
+                                        }
                                     }
                                     None => {
                                         violation = Some(mk(
@@ -1928,6 +1945,39 @@ impl Sim {
                 break;
             }
         }
+        if hoarding {
+            let alive = hoard.len() + clients.iter().filter(|c| c.is_some()).count();
+            {
+                let mut w = self.world.borrow_mut();
+                w.ctr.inc(C::runs_hoarding);
+                w.ctr.add(C::hoarded_providers_rejudged, hoard.len() as u64);
+                if alive as u64 > w.ctr.get(C::max_providers_alive_in_one_run) {
+                    w.ctr.v[C::max_providers_alive_in_one_run as usize] = alive as u64;
+                }
+            }
+            if violation.is_none() {
+                for (k, h) in hoard.iter().enumerate() {
+                    let r = catch_unwind(AssertUnwindSafe(|| oracle::o1_table_equals(&h.provider, &ctx.images[h.image].table)));
+                    let err = match r {
+                        Ok(Ok(())) => continue,
+                        Ok(Err(m)) => m,
+                        Err(_) => format!("reading the provider back panicked: {}", take_last_panic()),
+                    };
+                    violation = Some(Violation {
+                        oracle: "O1".into(),
+                        op_index: sc.ops.len().saturating_sub(1),
+                        message: format!(
+                            "a provider that was right when it was loaded (from {}) and has been kept alive since, with {} others, no longer holds its file's table at the end of the run: {err} (kept provider {k} of {})",
+                            ctx.images[h.image].name,
+                            alive - 1,
+                            hoard.len()
+                        ),
+                    });
+                    break;
+                }
+            }
+        }
+        drop(hoard);
         let nontrivial = any_fault_or_race && any_ok_load_checked;
         let ended = self.world.borrow_mut().cwd.take();
         if let Some(c) = ended {
